@@ -1,5 +1,5 @@
 use crate::interface::config::GenerateConfig;
-use crate::models::{CommandInfo, StructInfo};
+use crate::models::{CommandInfo, EventInfo, StructInfo};
 use serde::{Deserialize, Serialize};
 use std::collections::HashMap;
 use std::fs;
@@ -30,6 +30,9 @@ pub struct GenerationCache {
     structs_hash: String,
     /// Hash of configuration settings that affect output
     config_hash: String,
+    /// Hash of all discovered events (absent in caches written by older versions)
+    #[serde(default)]
+    events_hash: String,
     /// Combined hash for quick comparison
     combined_hash: String,
 }
@@ -43,16 +46,33 @@ impl GenerationCache {
         structs: &HashMap<String, StructInfo>,
         config: &GenerateConfig,
     ) -> Result<Self, CacheError> {
+        Self::new_with_events(commands, structs, &[], config)
+    }
+
+    /// Create a new cache from current generation state, including the discovered events
+    /// (events.ts is generated from them)
+    pub fn new_with_events(
+        commands: &[CommandInfo],
+        structs: &HashMap<String, StructInfo>,
+        events: &[EventInfo],
+        config: &GenerateConfig,
+    ) -> Result<Self, CacheError> {
         let commands_hash = Self::hash_commands(commands)?;
         let structs_hash = Self::hash_structs(structs)?;
         let config_hash = Self::hash_config(config)?;
-        let combined_hash = Self::combine_hashes(&commands_hash, &structs_hash, &config_hash)?;
+        let events_hash = Self::hash_events(events)?;
+        let combined_hash = Self::combine_hashes(
+            &commands_hash,
+            &structs_hash,
+            &format!("{}{}", config_hash, events_hash),
+        )?;
 
         Ok(Self {
             version: Self::CURRENT_VERSION,
             commands_hash,
             structs_hash,
             config_hash,
+            events_hash,
             combined_hash,
         })
     }
@@ -116,6 +136,44 @@ impl GenerationCache {
         Ok(previous_cache.combined_hash != current_cache.combined_hash)
     }
 
+    /// Check if generation is needed: the recorded state differs from the current one
+    /// (events included), or one of the files the generators write is missing from the
+    /// output directory.
+    pub fn needs_regeneration_with_events<P: AsRef<Path>>(
+        output_dir: P,
+        commands: &[CommandInfo],
+        structs: &HashMap<String, StructInfo>,
+        events: &[EventInfo],
+        config: &GenerateConfig,
+    ) -> Result<bool, CacheError> {
+        let previous_cache = match Self::load(&output_dir) {
+            Ok(cache) => cache,
+            Err(_) => return Ok(true),
+        };
+
+        if previous_cache.version != Self::CURRENT_VERSION {
+            return Ok(true);
+        }
+
+        let current_cache = Self::new_with_events(commands, structs, events, config)?;
+        if previous_cache.combined_hash != current_cache.combined_hash {
+            return Ok(true);
+        }
+
+        // The record only vouches for files that are still there
+        let mut expected_files = vec!["types.ts", "commands.ts", "index.ts"];
+        if !events.is_empty() {
+            expected_files.push("events.ts");
+        }
+        if config.should_visualize_deps() {
+            expected_files.push("dependency-graph.txt");
+            expected_files.push("dependency-graph.dot");
+        }
+        Ok(expected_files
+            .iter()
+            .any(|file| !output_dir.as_ref().join(file).is_file()))
+    }
+
     /// Get the cache file path
     fn cache_path<P: AsRef<Path>>(output_dir: P) -> PathBuf {
         output_dir.as_ref().join(CACHE_FILE_NAME)
@@ -132,6 +190,7 @@ impl GenerationCache {
             return_type: &'a str,
             is_async: bool,
             channels: Vec<ChannelHashData<'a>>,
+            serde_rename_all: Option<String>,
         }
 
         #[derive(Serialize)]
@@ -139,12 +198,14 @@ impl GenerationCache {
             name: &'a str,
             rust_type: &'a str,
             is_optional: bool,
+            serde_rename: Option<&'a str>,
         }
 
         #[derive(Serialize)]
         struct ChannelHashData<'a> {
             parameter_name: &'a str,
             message_type: &'a str,
+            serde_rename: Option<&'a str>,
         }
 
         let hash_data: Vec<CommandHashData> = commands
@@ -159,6 +220,7 @@ impl GenerationCache {
                         name: &p.name,
                         rust_type: &p.rust_type,
                         is_optional: p.is_optional,
+                        serde_rename: p.serde_rename.as_deref(),
                     })
                     .collect(),
                 return_type: &cmd.return_type,
@@ -169,8 +231,10 @@ impl GenerationCache {
                     .map(|c| ChannelHashData {
                         parameter_name: &c.parameter_name,
                         message_type: &c.message_type,
+                        serde_rename: c.serde_rename.as_deref(),
                     })
                     .collect(),
+                serde_rename_all: cmd.serde_rename_all.map(|rule| rule.to_string()),
             })
             .collect();
 
@@ -186,6 +250,7 @@ impl GenerationCache {
             file_path: &'a str,
             is_enum: bool,
             fields: Vec<FieldHashData<'a>>,
+            serde_rename_all: Option<String>,
         }
 
         #[derive(Serialize)]
@@ -194,6 +259,8 @@ impl GenerationCache {
             rust_type: &'a str,
             is_optional: bool,
             is_public: bool,
+            serde_rename: Option<&'a str>,
+            validator_attributes: Option<&'a crate::models::ValidatorAttributes>,
         }
 
         // Sort by name for deterministic ordering
@@ -214,8 +281,31 @@ impl GenerationCache {
                         rust_type: &f.rust_type,
                         is_optional: f.is_optional,
                         is_public: f.is_public,
+                        serde_rename: f.serde_rename.as_deref(),
+                        validator_attributes: f.validator_attributes.as_ref(),
                     })
                     .collect(),
+                serde_rename_all: s.serde_rename_all.map(|rule| rule.to_string()),
+            })
+            .collect();
+
+        let json = serde_json::to_string(&hash_data)?;
+        Ok(Self::compute_hash(&json))
+    }
+
+    /// Generate a deterministic hash of the discovered events (name and payload type)
+    fn hash_events(events: &[EventInfo]) -> Result<String, CacheError> {
+        #[derive(Serialize)]
+        struct EventHashData<'a> {
+            event_name: &'a str,
+            payload_type: &'a str,
+        }
+
+        let hash_data: Vec<EventHashData> = events
+            .iter()
+            .map(|e| EventHashData {
+                event_name: &e.event_name,
+                payload_type: &e.payload_type,
             })
             .collect();
 
